@@ -218,6 +218,9 @@ func c18tls(c *Ctx) {
 			if hs.Args[1] != tc.Result || hs.Args[2] != tc.Args[1] || !hasLit(p, len(p.Lits), true, func(t *core.Term) bool { return isEqNil(t, is(hs.Result)) }) {
 				ok, why = false, "the TLS connection is returned without a successful doHandshake on it with its own config"
 			}
+			if cfg := tc.Args[1]; !(cfg.Kind == core.KCall && cfg.Ref == interface{}(clone)) {
+				ok, why = false, "the TLS config of the first hop is not a clone of the caller's config: defaulting ServerName writes into Dialer.TLSClientConfig, so the backend handshake (and every later dial) verifies the certificate against the first host's name"
+			}
 			if !isCapturedState(fn, hp.Args[0]) {
 				ok, why = false, "the host used for verification is not taken from the URL being dialed"
 			}
